@@ -930,6 +930,17 @@ class Interp:
                 items.extend(self.models.concrete_items(self, self.eval(frame, e.value)))
             else:
                 items.append(self.eval(frame, e))
+        if any(isinstance(x, Obj) and x.kind == 'spread' for x in items):
+            # [*a, x, *b] with lists of symbolic length: a new list built by extend/append in display order
+            # (CPython: BUILD_LIST, LIST_EXTEND / LIST_APPEND per element)
+            from .models_calls import list_method
+            lst = S(self.ctx.alloc_list([]))
+            for x in items:
+                if isinstance(x, Obj) and x.kind == 'spread':
+                    list_method(self, lst, 'extend', [x.f['value']], {})
+                else:
+                    list_method(self, lst, 'append', [x], {})
+            return lst
         return S(self.ctx.alloc_list(items))
 
     def ex_Set(self, frame, node):
